@@ -215,6 +215,63 @@ FlatComps(f, cs, fuel, acc) ==
 \* fuel: no acyclic path visits more glyphs than the font has
 Outline(f, g) == Flat(f, g, f.n)
 
+\* ---- representation choices of the source ------------------------------------------------
+(***************************************************************************)
+(* The abstract font above has many encodings as glyf / loca / hmtx / sfnt *)
+(* bytes, all legal, some unusual.  A representation names the choices:    *)
+(*   ncc     numberOfContours of each composite: ANY negative value means  *)
+(*           composite (-1 is only recommended)                            *)
+(*   loca    "short" (records padded to 2 bytes) | "long" (padded to 4,    *)
+(*           where short offsets would do) | "long-unpadded" (odd offsets  *)
+(*           and lengths) | "long-gaps" (unused bytes between records)     *)
+(*   empty   a glyph without contours: "no-bytes" (two equal consecutive   *)
+(*           loca offsets) | "zero-contours" (a record with                *)
+(*           numberOfContours = 0; the only form that can carry            *)
+(*           instructions)                                                 *)
+(*   simple  the flag / coordinate encoding of simple glyphs:              *)
+(*           "short-vectors" | "words-repeat" (word deltas, REPEAT flags)  *)
+(*           | "overlap-bit" (OVERLAP_SIMPLE set on the first flag)        *)
+(*   dir     "sorted" | "unsorted" table directory of the sfnt             *)
+(* and numberOfHMetrics anywhere in 1 .. n is a choice of the same kind    *)
+(* (it is part of the abstract font here because create_hmtx_table reads   *)
+(* through it).                                                            *)
+(* What a reader makes of a record is decided by its length and its first  *)
+(* word alone (KindOfRecord).  SubsetRelation, GlyphPreserved and what     *)
+(* MC_Subset prescribes for a case are stated on the abstract font: no     *)
+(* operator of the property takes a representation, so two sources with    *)
+(* the same abstraction have the same conforming outputs (RepIndependent   *)
+(* is the lemma that every representation of Reps decodes to the font it   *)
+(* encodes, checked by MC_Subset on the representation of every case).     *)
+(* An implementation that looks at the bytes differently - composite only  *)
+(* if numberOfContours = -1, say (seeded change C07-r2m3) - computes       *)
+(* another closure for the same abstract font and breaks SubsetRelation.   *)
+(***************************************************************************)
+RepNC == {-1, -2, -32768}
+RepLoca == {"short", "long", "long-unpadded", "long-gaps"}
+RepEmpty == {"no-bytes", "zero-contours"}
+RepSimple == {"short-vectors", "words-repeat", "overlap-bit"}
+RepDir == {"sorted", "unsorted"}
+\* rep = [ncc : per glyph (index g + 1) a value of RepNC, loca, empty, simple, dir]
+WellFormedRep(f, rep) ==
+  /\ Len(rep.ncc) = f.n /\ \A i \in 1 .. f.n : rep.ncc[i] \in RepNC
+  /\ rep.loca \in RepLoca /\ rep.empty \in RepEmpty /\ rep.simple \in RepSimple /\ rep.dir \in RepDir
+
+\* the kind a reader gives a record of `len` bytes whose first word is `nc`
+KindOfRecord(len, nc) == IF len = 0 \/ nc = 0 THEN "empty" ELSE IF nc > 0 THEN "simple" ELSE "composite"
+
+\* contours of the simple glyph with shape token t (the generator's shapes: one contour, two for odd tokens)
+ShapeContours(t) == IF t % 2 = 1 THEN 2 ELSE 1
+\* first word and (whether there are any) bytes of the record that encodes glyph g under rep
+RecNC(f, g, rep) ==
+  LET k == f.kind[g + 1] IN
+  IF k = "composite" THEN rep.ncc[g + 1] ELSE IF k = "simple" THEN ShapeContours(f.shape[g + 1]) ELSE 0
+RecHasBytes(f, g, rep) ==
+  f.kind[g + 1] # "empty" \/ rep.empty = "zero-contours" \/ f.instr[g + 1] # <<>>
+
+RepIndependent(f, rep) ==
+  \A g \in 0 .. f.n - 1 :
+    KindOfRecord(IF RecHasBytes(f, g, rep) THEN 12 ELSE 0, RecNC(f, g, rep)) = f.kind[g + 1]
+
 \* ---- the property -----------------------------------------------------------------
 \* a retained glyph keeps its kind and its instructions, a retained composite every field of every
 \* component except the (renumbered) glyph id (Dev_ArgWidth: and the argument width)
